@@ -1291,7 +1291,16 @@ namespace
     {
         auto arr = left.data<d_array>();
         auto r = right.data<d_array>();
-        arr->insert(arr->end(), r->begin(), r->end());
+        // copy first: appending an array to itself must not insert from a range that is being modified
+        auto elements = r->value();
+        auto oldsize = arr->size();
+        arr->insert(arr->end(), elements.begin(), elements.end());
+        if (!arr->recursion_test())
+        {
+            arr->erase(arr->begin() + oldsize, arr->end());
+            runtime.__logmsg(err::ArrayRecursion(runtime.context_active().current_frame().diag_info_from_position()));
+            return {};
+        }
         return {};
     }
     value arrayintersect_array_array(runtime& runtime, value::cref left, value::cref right)
